@@ -82,7 +82,8 @@ def gen_taxonomy(rng, wp):
             name_mapper[lv] = {}
             for n in nodes[lv]:
                 if rng.random() < 0.8:
-                    ent = {'name': 'Name of %s' % n if rng.random() < 0.7 else 'nm, "%s"' % n}
+                    # names differ between levels even when two levels re-use a label
+                    ent = {'name': 'Name of %s (%s)' % (n, lv) if rng.random() < 0.7 else 'nm, "%s" @%s' % (n, lv)}
                     if lv == hierarchy[-1] and rng.random() < 0.8:
                         ent['alias'] = str(rng.randint(1, 9999))
                     name_mapper[lv][n] = ent
